@@ -109,6 +109,14 @@ def c05(case):
             on_tracts = all(("nonsequential_sections" in t.w_flags) == nonseq for t in d.tracts)
             return {"exc": "none", "obs": [secs], "nonseq": nonseq and on_tracts, "shared": shared,
                     "raw": [(t.trs, t.desc) for t in d.tracts]}
+        if flavour == "ctx_lots":
+            t = pytrs.Tract(text, parse_qq=True)
+            lots = [_lot_int(x) for x in t.lots]
+            ilots = [x if isinstance(x, int) else -1 for x in t.ilots]
+            nonseq = any(f == "nonsequential_lots" for f in t.w_flags)
+            if not lots or lots[0] != a["lead"] or not ilots or ilots[0] != a["lead"]:
+                return {"exc": "none", "obs": [[-1], [-1]], "nonseq": nonseq, "shared": True, "raw": list(t.lots)}
+            return {"exc": "none", "obs": [lots[1:], ilots[1:]], "nonseq": nonseq, "shared": True, "raw": list(t.lots)}
         if flavour == "lots":
             t = pytrs.Tract(text, parse_qq=True)
             lots = [_lot_int(x) for x in t.lots]
@@ -843,8 +851,13 @@ C15_OTHER = {"o1": "T154N-R97W Sec 14: NE/4, T155N-R98W Sec 1: Lots 1 - 3", "o2"
              "o3": "TIS4N-R97W Sec 14: NE/4, T155N-R98W Sec 1: Lots 1 - 3", "o4": "T155N-R98W Sec 1: NE NW, SW, Sec 0: SE"}
 
 
+_C15_HELD = [None]
+C15_HELD_TEXT = "T154-R97W Sec 14: NE/4, Lots 1 - 3"
+
+
 def c15_reset():
     import pytrs
+    _C15_HELD[0] = None
     pytrs.MasterConfig.default_ns = "n"
     pytrs.MasterConfig.default_ew = "w"
     pytrs.TRS._USE_CACHE = True
@@ -882,6 +895,11 @@ def c15_probe(p):
     if p == "tract_bareqq":
         t = pytrs.Tract("NE NW, SW of the SE, Lot 1", "154n97w14", parse_qq=True)
         return (snap_tract(t), t.preprocess())
+    if p == "held_parse":
+        if _C15_HELD[0] is None:
+            _C15_HELD[0] = pytrs.PLSSDesc(C15_HELD_TEXT, wait_to_parse=True, parse_qq=True)
+        _C15_HELD[0].parse()
+        return snap_plss(_C15_HELD[0])
     if p == "trslist":
         l = pytrs.TRSList(["154n97w14", pytrs.TRS("154n97w14"), pytrs.Tract("x", "154n97w14")])
         return tuple((x.trs, x.twp_num, x.sec_num, x.twprge) for x in l) + (len(l.filter_duplicates()),)
@@ -958,6 +976,8 @@ def c15_do(op):
             _mutate_container(d.tracts[0].qqs)
             g = d.tracts.group_by("twprge")
             _mutate_container(g)
+    elif name == "hold":
+        _C15_HELD[0] = pytrs.PLSSDesc(C15_HELD_TEXT, wait_to_parse=True, parse_qq=True)
     elif name == "probe":
         return c15_probe(a)
     else:
@@ -1163,7 +1183,15 @@ def c18_entry(case):
             out[1] = items[0]
             expect = [base_trs[0]] + want[:1]
         else:
-            out = cls.from_multiple(*items)
+            # several arguments, or one (possibly one-shot, possibly nested) iterable of them
+            if itb == "generator":
+                out = cls.from_multiple(x for x in items)
+            elif itb == "nested_iter":
+                out = cls.from_multiple(iter(items[:1] + [iter(items[1:])]))
+            elif itb == "tuple":
+                out = cls.from_multiple(tuple(items))
+            else:
+                out = cls.from_multiple(*items)
             expect = want
         got = [getattr(x, "trs", None) for x in out]
         return {"exc": "none", "len": len(out), "types_ok": all(isinstance(x, elem_cls) for x in out),
@@ -1232,7 +1260,7 @@ def c19_file(case):
     fp = os.path.join(td, "out.csv")
     tw = None
     try:
-        base_header = pytrs.Tract.get_headers(attrs, nh)
+        base_header = pytrs.Tract.get_headers(list(attrs), nh)      # (the library never gets the harness's own list)
         headers = [base_header, base_header + ["UID"]]
         ident = {}
         for d, o in objs.items():
@@ -1270,6 +1298,8 @@ def c19_file(case):
                     d, i, t = ident[key]
                     rows.append([d, i])
                     uids.append(parse_uid(r[len(attrs)]) if len(r) > len(attrs) else [0, 0, 0])
+                    if len(r) > len(attrs) + 1:          # a row is never wider than attributes + UID
+                        ok = False
                     for j, att in enumerate(attrs):
                         val = getattr(t, att, "%s: n/a" % att)
                         if j >= len(r) or not _cell_ok(r[j], val):
@@ -1286,11 +1316,11 @@ def c19_file(case):
                 name = op["name"]
                 if name == "start":
                     if op["mode"] == "exists":
-                        objs[2].tracts_to_csv(attrs, fp, "w", nice_headers=nh)
+                        objs[2].tracts_to_csv(list(attrs), fp, "w", nice_headers=nh)
                 elif name == "csv":
-                    objs[op["d"]].tracts_to_csv(attrs, fp, op["mode"], nice_headers=nh)
+                    objs[op["d"]].tracts_to_csv(list(attrs), fp, op["mode"], nice_headers=nh)
                 elif name == "winit":
-                    tw = TractWriter(attrs, fp, op["mode"], nice_headers=nh, uid=(op["d"] or None))
+                    tw = TractWriter(list(attrs), fp, op["mode"], nice_headers=nh, uid=(op["d"] or None))
                 elif name == "wwrite":
                     n = tw.write(objs[op["d"]] if op["d"] else None)
                     ev["ret"] = {"kind": "count", "n": n}
